@@ -113,6 +113,26 @@ class _Busy(object):
         return call
 
 
+def norm_id(rid):
+    """storage ids as the harness keys them: RedisStorage may hand the same id back as bytes or str;
+    the harness tracks the MESSAGE, so that two representations of one id are seen as one message"""
+    return rid.decode('ascii', 'replace') if isinstance(rid, bytes) else rid
+
+
+class _IdMap(dict):
+    def __getitem__(self, k):
+        return dict.__getitem__(self, norm_id(k))
+
+    def __setitem__(self, k, v):
+        dict.__setitem__(self, norm_id(k), v)
+
+    def __contains__(self, k):
+        return dict.__contains__(self, norm_id(k))
+
+    def get(self, k, d=None):
+        return dict.get(self, norm_id(k), d)
+
+
 class TraceStore(object):
     """QueueStorage wrapper: gates + model events."""
 
@@ -365,20 +385,21 @@ class BounceRecorder(object):
 
 
 class QH(object):
-    def __init__(self, inner=None, start=True, store_pool=None, relay_pool=None, relay_kind=None):
+    def __init__(self, inner=None, start=True, store_pool=None, relay_pool=None, relay_kind=None, ids=None, clock=0, init=None):
         hub = gevent.get_hub()
         try:
             hub.exception_stream = None
         except Exception:
             pass
-        self.clock = 0
+        self.clock = clock
+        self.init = init          # (store, next id, clock) of a restarted queue, None = fresh
         self.activity = 0
         self.busy = 0
         self.trace = []         # model events, in the order the real code performed them
         self.marks = []         # (len(trace), snapshot) at each quiescent point
         self.gates = []
-        self.ids = {}           # real id -> model id
-        self.rids = {}          # model id -> real id
+        self.ids = _IdMap(ids or {})           # real id -> model id
+        self.rids = dict((v, k) for k, v in self.ids.items())          # model id -> real id
         self.accepted = {}
         self.attempts = []
         self.inflight = {}
@@ -398,6 +419,7 @@ class QH(object):
         self.flush_calls = 0
         self.flush_returns = 0
         self.errors = []
+        self.load_errors = []
         self.inner = inner if inner is not None else DictStorage()
         self.store = TraceStore(self, self.inner)
         if relay_kind in ('pipe', 'pipe1'):
@@ -534,10 +556,25 @@ class QH(object):
                 quiet = 0
         self.marks.append((len(self.trace), self.snapshot()))
 
+    def listing(self):
+        try:
+            return list(self.inner.load())
+        except Exception as exc:
+            if not self.load_errors:
+                self.load_errors.append('%s: %s' % (type(exc).__name__, exc))
+            return []
+
     def snapshot(self):
         q = self.queue
         st = []
-        for ts, rid in sorted(self.inner.load(), key=lambda e: self.ids.get(e[1], -1)):
+        try:
+            listing = sorted(self.inner.load(), key=lambda e: self.ids.get(e[1], -1))
+        except Exception as exc:           # a listing that raises is part of the observed state (and judged by the oracles)
+            listing = []
+            st.append((-1, 'load-raises:' + type(exc).__name__, (), -1, -1))
+            if not self.load_errors:
+                self.load_errors.append('%s: %s' % (type(exc).__name__, exc))
+        for ts, rid in listing:
             try:
                 env, att = self.inner.get(rid)
             except Exception as exc:       # a corrupted entry is part of the observed state
@@ -640,7 +677,11 @@ def compare_with_model(ctx, h, label):
     compare its state with the real queue at every quiescent point"""
     if not h.trace:
         return True
-    states = ctx.model.call('cq_trace', [list(e) for e in map(_enc_event, h.trace)])
+    if getattr(h, 'init', None) is not None:
+        st0, nx0, c0 = h.init
+        states = ctx.model.call('cq_trace_from', [[list(m) for m in st0], nx0, c0, [list(e) for e in map(_enc_event, h.trace)]])
+    else:
+        states = ctx.model.call('cq_trace', [list(e) for e in map(_enc_event, h.trace)])
     ok = True
     for n, snap in h.marks:
         if n == 0:
@@ -705,6 +746,12 @@ def make_backend(kind):
         from slimta.cloudstorage import CloudStorage
         from vp import storefakes
         return CloudStorage(storefakes.FakeObjectStore(_UuidHub())), (lambda: None)
+    if kind == 'redis':
+        import slimta.redisstorage as redismod
+        from vp import storefakes
+        st = redismod.RedisStorage(prefix='slimta:')
+        st.redis = storefakes.FakeRedis()
+        return st, (lambda: None)
     return DictStorage(), (lambda: None)
 
 
@@ -788,7 +835,7 @@ class Run(object):
         elif g.kind == 'incr':
             payload = self.pick([None, 0, 5, 10, 0, 5])
         elif g.kind in ('load', 'wait'):
-            stored = sorted(h.inner.load(), key=lambda e: h.ids.get(e[1], -1))
+            stored = sorted(h.listing(), key=lambda e: h.ids.get(e[1], -1))
             opts = [[]] + [[e] for e in stored]
             if g.kind == 'load':
                 opts.append(stored)
@@ -833,6 +880,9 @@ def oracle(ctx, run, label, props):
     """the property statements evaluated on what the real queue did"""
     h = run.h
     case = dict(schedule=run.choices, cfg=run.cfg, events=h.trace)
+    if h.load_errors:
+        key = 'c12:stored-message-forgotten' if 'c12' in props else ('c01:stored-message-never-loaded' if 'c01' in props else 'c03:load-raises')
+        ctx.fail(key, case, 'storage load() raises on the %s backend: %s (the stored messages can not be listed, a restarted queue would never pick them up)' % (run.cfg.get('backend', 'dict'), h.load_errors[0]))
     # C03: one attempt in flight per id; settled recipients never attempted again
     if 'c03' in props:
         if h.overlaps:
@@ -857,7 +907,7 @@ def check_tracked(ctx, run, case, where):
     q = h.queue
     queued_ids = set(h.ids.get(rid) for ts, rid in q.queued)
     busy = set(g.mid for g in h.gates if g.mid is not None) | set(b[1] for b in h.blocked)
-    for ts, rid in h.inner.load():
+    for ts, rid in h.listing():
         mid = h.ids[rid]
         known = any(e[0] == 1 and e[1] == mid for e in h.trace) or any(e[0] == 9 and e[2] == mid for e in h.trace)
         if known and mid not in queued_ids and mid not in busy:
@@ -878,7 +928,7 @@ def check_final(ctx, run, case):
     if not run.contract:
         return
     stored = {}
-    for ts, rid in h.inner.load():
+    for ts, rid in h.listing():
         try:
             env, att = h.inner.get(rid)
         except Exception:
@@ -949,6 +999,35 @@ def explore(ctx, props, n_random, steps, cfgs):
 def replay_run(ctx, case):
     import random as _r
     c = case.get('case', case)
+    if isinstance(c.get('schedule'), str):
+        # deterministic directed scenarios: run them again and report what the oracles say now
+        from vp import core as _core
+
+        class _Echo(object):
+            def __init__(self, inner):
+                self._c = inner
+                self.n = 0
+
+            def __getattr__(self, k):
+                return getattr(self._c, k)
+
+            def fail(self, key, case, what):
+                self.n += 1
+                print('ORACLE', key, '-', what)
+
+            def mismatch(self, kind, case, impl, model):
+                self.n += 1
+                print('MISMATCH', kind, 'impl:', impl, 'model:', model)
+        e = _Echo(ctx)
+        props = tuple(p for p in ('c01', 'c03', 'c12') if p == case.get('key', c.get('key', '')).split(':')[0]) or ('c01', 'c03', 'c12')
+        if c['schedule'] == 'scripted-restart':
+            scripted_restart(e, props, c.get('backend', 'dict'))
+        elif c['schedule'] == 'scripted-rounds':
+            scripted_rounds(e, props, c.get('backend', 'dict'))
+        elif c['schedule'] == 'bounded-pools':
+            bounded_pool_scenario(e)
+        print('scenario %s on %s: %d oracle failures / mismatches' % (c['schedule'], c.get('backend', '-'), e.n))
+        return 1 if e.n else 0
     run = Run(_r.Random(0), c['cfg'], script=c['schedule'])
     try:
         while run.script:
@@ -1044,4 +1123,114 @@ def scripted_rounds(ctx, props, backend):
         compare_with_model(ctx, h, label)
     finally:
         h.close()
+        cleanup()
+
+
+def _real_load(ctx, props, inner, case, where):
+    """the backend's own start-up listing; a raising load() means stored mail is never picked up"""
+    try:
+        return list(inner.load())
+    except Exception as exc:
+        key = 'c12:stored-message-forgotten' if 'c12' in props else ('c01:stored-message-never-loaded' if 'c01' in props else 'c03:load-raises')
+        ctx.fail(key, case, '%s: storage load() raises %s: %s; the messages already in storage are never announced to the queue' % (where, type(exc).__name__, exc))
+        return None
+
+
+def scripted_restart(ctx, props, backend):
+    """process restart over a REAL backend: phase 1 leaves three messages in storage at different
+    points of their life (retry scheduled after a partial round; relay attempt in flight; crash between
+    increment_attempts and set_timestamp), the Queue object is thrown away, a fresh Queue is started
+    over the same storage with the backend's REAL load() listing (and, for redis, the REAL pending
+    announcements from wait()).  The second phase is validated against the model started with
+    `start_at store next_id clock` (theorems C12_restart_resumes / C12_not_forgotten_after_restart)."""
+    inner, cleanup = make_backend(backend)
+    label = dict(schedule='scripted-restart', backend=backend)
+    h1 = h2 = None
+    try:
+        h1 = QH(inner=inner)
+        if h1.pending('load'):
+            h1.release(h1.pending('load')[0], [])
+        h1.act_advance(3)
+        h1.act_enqueue('s@example.com', [0, 1])
+        h1.release(h1.pending('write')[0])
+        h1.release(h1.pending('relay', 0)[0], ('map', ('ok', 'temp')))
+        h1.release(h1.pending('incr', 0)[0], 5)
+        h1.release(h1.pending('set_ts', 0)[0])
+        h1.release(h1.pending('set_deliv', 0)[0])
+        h1.act_advance(1)
+        h1.act_enqueue('', [6])
+        h1.release(h1.pending('write')[0])          # relay attempt of message 1 stays in flight
+        h1.act_enqueue('s@example.com', [12, 13])
+        h1.release(h1.pending('write')[0])
+        h1.release(h1.pending('relay', 2)[0], ('temp',))
+        h1.release(h1.pending('incr', 2)[0], 0)       # crash before set_timestamp of message 2
+        compare_with_model(ctx, h1, dict(label, phase=1))
+        clock, ids = h1.clock, dict(h1.ids)
+        h1.close()
+        h1 = None
+        case = dict(label, phase=2)
+        entries = _real_load(ctx, props, inner, case, 'restart')
+        if entries is None:
+            return
+        idmap = _IdMap(ids)
+        st0 = []
+        for ts, rid in entries:
+            env, att = inner.get(rid)
+            st0.append([idmap[rid], 1 if env.sender else 0, bytes(int(r.split('@')[0][1:]) for r in env.recipients), att, int(ts)])
+        st0.sort()
+        nx = len(ids)
+        h2 = QH(inner=inner, ids=ids, clock=clock, init=(st0, nx, clock))
+        entries.sort(key=lambda e: idmap[e[1]])
+        h2.release(h2.pending('load')[0], entries)
+        # announcements the dead process never consumed (redis keeps them in its list)
+        for _ in range(6):
+            ann = []
+            if backend == 'redis':
+                ann = inner.wait()
+            g = h2.pending('wait')
+            if not ann or not g:
+                break
+            h2.release(g[0], ann)
+        h2.act_advance(10)
+        mids = sorted(ids.values())
+        gets = [(g.kind, g.mid) for g in h2.gates if g.kind == 'get']
+        case = dict(label, phase=2, events=h2.trace, gets=gets)
+        ctx.evaluated(('scripted-restart', backend))
+        ctx.count('scripted-restart:' + backend)
+        if sorted(m for k, m in gets) != mids:
+            dup = [m for m in set(m for k, m in gets) if [x for k, x in gets].count(m) > 1 or m >= 1000]
+            if dup:
+                key = 'c03:two-attempts-in-flight' if 'c03' in props else ('c12:stored-message-forgotten' if 'c12' in props else 'c01:recipient-lost')
+                ctx.fail(key, case, 'after a restart on %s storage the queue dequeues %r for the stored messages %r: one message is taken for two (its id comes back in two representations) or an id the storage never issued is dequeued' % (backend, gets, mids))
+            else:
+                key = 'c12:stored-message-forgotten' if 'c12' in props else ('c01:recipient-lost' if 'c01' in props else 'c03:settled-recipient-attempted-again')
+                ctx.fail(key, case, 'after a restart on %s storage and 10 s the queue dequeues %r, stored and due: %r' % (backend, gets, mids))
+            return
+        for g in list(h2.pending('get')):
+            h2.release(g)
+        seen = {}
+        for m in mids:
+            g = h2.pending('relay', m)
+            if g:
+                seen[m] = list(g[0].info)
+        expect = {0: [1], 1: [6], 2: [12, 13]}
+        if seen != expect:
+            key = 'c03:settled-recipient-attempted-again' if 'c03' in props else ('c01:recipient-lost' if 'c01' in props else 'c12:stored-message-forgotten')
+            ctx.fail(key, dict(case, attempts=seen), 'recipients attempted after the restart on %s storage: %r, expected %r (recipient 0 of message 0 was settled and marked before the crash)' % (backend, seen, expect))
+            return
+        for m in mids:
+            h2.release(h2.pending('relay', m)[0], ('ok',))
+        for g in list(h2.pending('remove')):
+            h2.release(g)
+        left = _real_load(ctx, props, inner, case, 'after the restarted queue delivered everything')
+        if left:
+            key = 'c01:recipient-lost' if 'c01' in props else 'c12:stored-message-forgotten'
+            ctx.fail(key, case, 'messages still stored after every attempt succeeded: %r' % (left,))
+        if h2.overlaps and 'c03' in props:
+            ctx.fail('c03:two-attempts-in-flight', case, 'overlapping attempts after the restart: %r' % h2.overlaps)
+        compare_with_model(ctx, h2, dict(label, phase=2))
+    finally:
+        for h in (h1, h2):
+            if h is not None:
+                h.close()
         cleanup()
